@@ -101,8 +101,10 @@ def uItems (p : Prefs) (lv : Nat) : List UItem → O → List O → Except Err C
         let r := uPush p (lv + 1) out stacks1 (.str val) ty
         uItems p lv rest r.1 (if ty == t_CHAR && val == [123] then [] :: r.2 else r.2)
     else
-      let r := uPush p (lv + 1) out stacks (.str s) ty
-      uItems p lv rest r.1 (if ty == t_CHAR && s == [123] then [] :: r.2 else r.2)
+      -- f99aded (`:759-761`): `if 'HASH' == type_: type_ = None` — not known to be a colour, kept as written
+      let ty1 := if ty == t_HASH then t_None else ty
+      let r := uPush p (lv + 1) out stacks (.str s) ty1
+      uItems p lv rest r.1 (if ty1 == t_CHAR && s == [123] then [] :: r.2 else r.2)
   | .comment t :: rest, out, stacks =>
     let r := uPush p (lv + 1) out stacks (.obj (doComment p t)) t_COMMENT
     uItems p lv rest r.1 r.2
@@ -255,10 +257,17 @@ def importCalls (p : Prefs) (hrefString : Bool) (its : List EItem) : List Call :
 def namespaceCalls (its : List EItem) : List Call :=
   its.map fun it => if it.1 == t_namespaceURI then { v := it.2.aval, ty := t_STRING } else { v := it.2.aval, ty := it.1 }
 
-/-- `do_CSSPageRuleSelector` (`:665-673`) -/
-def pageSelCalls (its : List EItem) : List Call :=
-  its.map fun it => if it.1 == t_IDENT then { v := it.2.aval, ty := it.1, f := { space := false } }
-                    else { v := it.2.aval, ty := it.1 }
+/-- `do_CSSPageRuleSelector` (`:683-697`, as of ec62b69); the flag is `named`: after the page name a COMMENT is
+appended with `space=False` too (`a :first` is not `a:first`) -/
+def pageSelCallsFrom : Bool → List EItem → List Call
+  | _, [] => []
+  | named, it :: t =>
+    if it.1 == t_IDENT then { v := it.2.aval, ty := it.1, f := { space := false } } :: pageSelCallsFrom true t
+    else if named && it.1 == t_COMMENT then
+      { v := it.2.aval, ty := it.1, f := { space := false } } :: pageSelCallsFrom named t
+    else { v := it.2.aval, ty := it.1 } :: pageSelCallsFrom named t
+
+def pageSelCalls (its : List EItem) : List Call := pageSelCallsFrom false its
 
 /-- `do_css_SelectorList` (`:818-831`) -/
 def doSelectorList (p : Prefs) (lv : Nat) (wf : Bool) (sels : List Obj) : Cps :=
